@@ -8,16 +8,21 @@ case kind "hist": {"kind": "hist", "runs": [run, ...]}
   run = {"mk": [x..], "rm": [x..],           job directories created (with success marker) / deleted first
          "jobs": [x..],                      jobs the block submits, in order
          "end": "ok" | "exc" | "kill_in" | "kill_locked" | "kill_moving" | "kill_exit" | "kill_wait",
+         "via": "fall" | "return" | "break", ok: how the block is left without exception (default fall)
+         "exc": kind,                        exc: what is raised inside the block, a key of EXC (default "error");
+                                             the child logs "exc-class error" (an Exception) or "exc-class base"
+                                             (a BaseException that is not an Exception) before "raise"
          "k": n,                             exc/kill_in: submits done before; kill_moving/kill_exit: fs ops done before
          "sync": bool,                       wait until the links of the submitted jobs exist before going on
          "sig": bool}                        die by SIGKILL instead of os._exit
-case kind "excl": {"kind": "excl", "pre": [run..], "p1": [x..], "leave": "ok"|"exc"|"kill", "p2": [x..], "wait": s}
-case kind "excl3": {"kind": "excl3", "pre": [run..], "a": [x..], "b": [x..], "c": [x..], "leave": "ok"|"exc",
+case kind "excl": {"kind": "excl", "pre": [run..], "p1": [x..], "leave": "ok"|"exc"|"kill", "exc": kind, "p2": [x..], "wait": s}
+case kind "excl3": {"kind": "excl3", "pre": [run..], "a": [x..], "b": [x..], "c": [x..], "leave": "ok"|"exc", "exc": kind,
                     "third": "new"|"relaunch", "mk": [x..], "wait": s}   lock hand-over A -> B while C contends
 
 Observables are canonical: a link is [x_name, x_target] where x is the job number (-1: unknown
 name, -2: target outside the workspace job folder), lists are sorted.
 """
+import asyncio
 import json
 import logging
 import os
@@ -42,6 +47,96 @@ REAL = dict(mkdir=os.mkdir, rename=os.rename, unlink=os.unlink, rmdir=os.rmdir)
 
 class Boom(Exception):
     pass
+
+
+class Halt(BaseException):
+    """A user-defined BaseException that is not an Exception."""
+
+
+class Both(KeyboardInterrupt, Exception):
+    """An Exception that is also a KeyboardInterrupt."""
+
+
+def _sys_exit(code):
+    def f():
+        sys.exit(code)
+    return f
+
+
+def _raiser(make):
+    def f():
+        raise make()
+    return f
+
+
+# ways of leaving the block by raising: kind -> callable that raises.  "genexit" is special: the block
+# runs inside a generator that is closed while suspended in the block (GeneratorExit thrown at the yield)
+EXC = {
+    "error": _raiser(Boom),
+    "oserror": _raiser(lambda: FileNotFoundError(2, "no such file")),
+    "both": _raiser(Both),
+    "excgroup": _raiser(lambda: ExceptionGroup("g", [Boom()])),
+    "sysexit0": _sys_exit(0),
+    "sysexit1": _sys_exit(1),
+    "sysexitmsg": _sys_exit("stop"),
+    "kbint": _raiser(KeyboardInterrupt),
+    "cancelled": _raiser(asyncio.CancelledError),
+    "halt": _raiser(Halt),
+    "basegroup": _raiser(lambda: BaseExceptionGroup("g", [KeyboardInterrupt()])),
+    "genexit": None,
+}
+
+
+def exc_class(e):
+    return "error" if isinstance(e, Exception) else "base"
+
+
+def run_block(enter, body, log, tag="", genexit=False):
+    """`with enter() as xp: body(xp)` where body returns how to leave: ("ok", via) or ("exc", kind); with
+    genexit the block is the body of a generator closed while suspended inside the block.
+    Logs "<tag>endblock" + "<tag>exited" (left without exception), "<tag>exc-class C" + "<tag>raise" +
+    "<tag>exc-out" (left through the exception raised here), "<tag>error ..." (anything else came out)."""
+    raised = []
+
+    def plain():
+        for _ in (0,):
+            with enter() as xp:
+                how, arg = body(xp)
+                if how == "exc":
+                    try:
+                        EXC[arg]()
+                    except BaseException as e:  # noqa
+                        raised.append(e)
+                        log(f"{tag}exc-class {exc_class(e)}")
+                        log(f"{tag}raise")
+                        raise
+                log(f"{tag}endblock")
+                if arg == "return":
+                    return
+                if arg == "break":
+                    break
+
+    def gen():
+        with enter() as xp:
+            body(xp)
+            log(f"{tag}exc-class {exc_class(GeneratorExit())}")
+            log(f"{tag}raise")
+            yield
+
+    try:
+        if genexit:
+            g = gen()
+            next(g)
+            g.close()
+            log(f"{tag}exc-out")
+        else:
+            plain()
+            log(f"{tag}exited")
+    except BaseException as e:  # noqa
+        if raised and e is raised[0]:
+            log(f"{tag}exc-out")
+        else:
+            log(f"{tag}error {type(e).__name__}: {e}")
 
 
 # ---------------------------------------------------------------- calibration
@@ -232,48 +327,47 @@ def child_run(ws, table, run, logfd, ctl=None):
     hooks.kill_moving = k if end == "kill_moving" else None
     hooks.kill_exit = k if end == "kill_exit" else None
     hooks.install()
-    try:
+
+    def enter():
         log("try")
-        with experiment(ws, NAME, port=-1) as xp:
-            hooks.phase = "in"
-            log("entered")
-            if end in ("kill_moving", "kill_locked"):
-                log("kill in")        # the injection point was never reached
+        return experiment(ws, NAME, port=-1)
+
+    def body(xp):
+        hooks.phase = "in"
+        log("entered")
+        if end in ("kill_moving", "kill_locked"):
+            log("kill in")        # the injection point was never reached
+            die()
+        if ctl is not None:
+            os.read(ctl, 1)       # probe, second process: wait for the go
+        submitted = []
+        for i, x in enumerate(run["jobs"]):
+            if end in ("exc", "kill_in") and i >= k:
+                break
+            IndexedJob(x=x).submit()
+            submitted.append(x)
+            log(f"sub {x}")
+        if run.get("sync"):
+            log("synced" if wait_links(ws, table, submitted) else "sync-timeout")
+        if run.get("hold") is not None:
+            log("holding")
+            os.read(run["hold"], 1)     # probe, first process: leaves (as its `end` says) when told to
+        if end == "exc":
+            return "exc", kind
+        if end == "kill_in":
+            log("kill in")
+            die()
+        if end in ("kill_exit", "kill_wait"):
+            def dying_wait():
+                log("kill wait")
                 die()
-            if ctl is not None:
-                os.read(ctl, 1)       # probe, second process: wait for the go
-            submitted = []
-            for i, x in enumerate(run["jobs"]):
-                if end in ("exc", "kill_in") and i >= k:
-                    break
-                IndexedJob(x=x).submit()
-                submitted.append(x)
-                log(f"sub {x}")
-            if run.get("sync"):
-                log("synced" if wait_links(ws, table, submitted) else "sync-timeout")
-            if run.get("hold") is not None:
-                log("holding")
-                cmd = os.read(run["hold"], 1)     # probe, first process: b"o" leave, b"x" raise
-                if cmd == b"x":
-                    end = "exc"
-            if end == "exc":
-                log("raise")
-                raise Boom()
-            if end == "kill_in":
-                log("kill in")
-                die()
-            if end in ("kill_exit", "kill_wait"):
-                def dying_wait():
-                    log("kill wait")
-                    die()
-                xp.wait = dying_wait
-            hooks.phase = "exit"
-            log("endblock")
-        log("exited")
-    except Boom:
-        log("exc-out")
-    except BaseException as e:  # noqa
-        log(f"error {type(e).__name__}: {e}")
+            xp.wait = dying_wait
+        hooks.phase = "exit"
+        return "ok", run.get("via", "fall")
+
+    kind = run.get("exc", "error")
+    try:
+        run_block(enter, body, log, genexit=(end == "exc" and kind == "genexit"))
     finally:
         os._exit(0)
 
@@ -356,7 +450,8 @@ def do_excl(ws, table, rel2x, case):
         mk_jobdir(ws, table, x)
     # first process: enters, links its jobs, holds the experiment
     h_r, h_w = os.pipe()
-    run1 = dict(jobs=case["p1"], end="ok", sync=True, hold=h_r)
+    run1 = dict(jobs=case["p1"], end="exc" if case["leave"] == "exc" else "ok", exc=case.get("exc", "error"),
+                k=len(case["p1"]), sync=True, hold=h_r)
     t1 = time.time()
     pid1, fd1 = fork_run(ws, table, run1)
     os.close(h_r)
@@ -414,8 +509,9 @@ def do_excl(ws, table, rel2x, case):
 # ---------------------------------------------------------------- three-process probe (lock hand-over)
 def child_actor(ws, table, logfd, cmdfd):
     """A process that runs experiment blocks on command (JSON lines on cmdfd):
-    {"op": "run", "tag": T, "jobs": [..]} enters, submits, waits for the links, logs "T holding",
-    then waits for {"op": "leave", "how": "ok"|"exc"}; {"op": "quit"} ends the process."""
+    {"op": "run", "tag": T, "jobs": [..], "how": "ok"|"exc", "exc": kind} enters, submits, waits for the
+    links, logs "T holding", then waits for a {"op": "leave"} line and leaves the block as the run command
+    said; {"op": "quit"} ends the process."""
     quiet()
     cmds = os.fdopen(cmdfd, "r")
 
@@ -431,27 +527,25 @@ def child_actor(ws, table, logfd, cmdfd):
             if cmd["op"] == "quit":
                 break
             tag = cmd["tag"]
-            try:
+            how, kind = cmd.get("how", "ok"), cmd.get("exc", "error")
+
+            def enter():
                 log(f"{tag} try")
-                with experiment(ws, NAME, port=-1):
-                    log(f"{tag} entered")
-                    subs = []
-                    for x in cmd["jobs"]:
-                        IndexedJob(x=x).submit()
-                        subs.append(x)
-                        log(f"{tag} sub {x}")
-                    log(f"{tag} synced" if wait_links(ws, table, subs) else f"{tag} sync-timeout")
-                    log(f"{tag} holding")
-                    how = json.loads(cmds.readline() or '{"how": "exc"}')["how"]
-                    if how == "exc":
-                        log(f"{tag} raise")
-                        raise Boom()
-                    log(f"{tag} endblock")
-                log(f"{tag} exited")
-            except Boom:
-                log(f"{tag} exc-out")
-            except BaseException as e:  # noqa
-                log(f"{tag} error {type(e).__name__}: {e}")
+                return experiment(ws, NAME, port=-1)
+
+            def body(xp):
+                log(f"{tag} entered")
+                subs = []
+                for x in cmd["jobs"]:
+                    IndexedJob(x=x).submit()
+                    subs.append(x)
+                    log(f"{tag} sub {x}")
+                log(f"{tag} synced" if wait_links(ws, table, subs) else f"{tag} sync-timeout")
+                log(f"{tag} holding")
+                cmds.readline()             # leaves (as the run command said) when told to
+                return ("exc", kind) if how == "exc" else ("ok", "fall")
+
+            run_block(enter, body, log, tag=tag + " ", genexit=(how == "exc" and kind == "genexit"))
     finally:
         os._exit(0)
 
@@ -510,7 +604,7 @@ def do_excl3(ws, table, rel2x, case):
     win = case.get("wait", 0.4)
     t0 = time.time()
     a = Actor(ws, table)
-    a.send(op="run", tag="A", jobs=case["a"])
+    a.send(op="run", tag="A", jobs=case["a"], how=case["leave"], exc=case.get("exc", "error"))
     a.wait("A entered", 30)
     t_enter = time.time() - t0
     out["a_in"] = a.wait("A holding", 30)
@@ -520,7 +614,7 @@ def do_excl3(ws, table, rel2x, case):
     out["b_trying"] = b.wait("B try", 10)
     out["b_early"] = b.wait("B entered", max(win, 3 * t_enter))
     out["s_bwait"] = snapshot(ws, rel2x)
-    a.send(how=case["leave"])
+    a.send(op="leave")
     out["a_left"] = a.wait("A exited" if case["leave"] == "ok" else "A exc-out", 30)
     out["b_after"] = b.wait("B entered", 30)
     out["b_holding"] = b.wait("B holding", 30)
@@ -533,12 +627,12 @@ def do_excl3(ws, table, rel2x, case):
     out["c_trying"] = c.wait("C try", 10)
     out["c_early"] = c.wait("C entered", max(win, 3 * t_enter))
     out["s_cwait"] = snapshot(ws, rel2x)
-    b.send(how="ok")
+    b.send(op="leave")
     out["b_left"] = b.wait("B exited", 30)
     out["c_after"] = c.wait("C entered", 30)
     out["c_holding"] = c.wait("C holding", 30)
     out["s_c"] = snapshot(ws, rel2x)
-    c.send(how="ok")
+    c.send(op="leave")
     out["c_left"] = c.wait("C exited", 30)
     out["s_end"] = snapshot(ws, rel2x)
     logs, tos = {}, []
